@@ -133,7 +133,11 @@ class Process(metaclass=abc.ABCMeta):
 
         self._parameters = copy.deepcopy(self.defaults)
         self._parameters = deep_merge(self._parameters, parameters)
-        self._schema_override: Schema = self._parameters.get('_schema', {})
+        # (a copy of the dictionary structure: overrides merged in later
+        # must not be written into the caller's parameters, which other
+        # processes may have been built from)
+        self._schema_override: Schema = deep_copy_internal(
+            self._parameters.get('_schema', {}))
         self._parallel = self._parameters.get('_parallel', False)
         self._condition_path: Optional[HierarchyPath] = None
         self._command_result: Any = None
@@ -440,7 +444,10 @@ class Process(metaclass=abc.ABCMeta):
         Args:
             override: The schema override to add.
         """
-        deep_merge(self._schema_override, override)
+        # merge a copy: the same override dictionary may be handed to
+        # several processes (a composer's _schema, a composite's merge),
+        # and later overrides for ONE of them are merged into this one
+        deep_merge(self._schema_override, deep_copy_internal(override))
 
     def ports(self) -> Dict[str, List[str]]:
         """Get ports and each port's variables.
